@@ -37,7 +37,7 @@ RULE = (
     "non-trivial = cloud with points both inside and outside; distinct = (workload, columns, scale class, prism kind / visibility mix, inside?, outside?)"
 )
 ASSUMPTIONS = ["boxes are upright (yaw only)", "prisms are simple polygons with identical upper and lower planes"]
-DECIDING = ["crop_pointcloud.judged", "DynamicObject.crop_pointcloud.judged", "C12.partition_checked", "C12.scale_growth_checked", "SensingFrameResult.judged", "C12.status.success", "C12.status.fail", "C12.status.warning", "C12.non_detection_judged", "C12.manager_frames", "C12.clouds_with_inside_and_outside", "SensingEvaluationManager.crop_pointcloud.judged"]
+DECIDING = ["crop_pointcloud.judged", "DynamicObject.crop_pointcloud.judged", "C12.partition_checked", "C12.scale_growth_checked", "SensingFrameResult.judged", "C12.status.success", "C12.status.fail", "C12.status.warning", "C12.non_detection_judged", "C12.manager_frames", "C12.clouds_with_inside_and_outside", "SensingEvaluationManager.crop_pointcloud.judged", "C12.outline_objects_checked"]
 JOBS = {"quick": 4, "thorough": 14}
 EPS = 1e-7
 
@@ -137,7 +137,7 @@ def install(taps: Taps, ctx: Ctx) -> None:
             out = orig(self, pointcloud, bbox_scale, inside)
 
             def j():
-                ins, dec = box_verdicts_fast(pointcloud, O.box_of(self), bbox_scale)
+                ins, dec = object_verdicts(pointcloud, self, bbox_scale)
                 judge_selection(ctx, "DynamicObject.crop_pointcloud", pointcloud, out, ins, dec, bool(inside), dict(n=len(pointcloud), box=O.box_of(self), scale=bbox_scale, inside=bool(inside)))
 
             guarded(ctx, "DynamicObject.crop_pointcloud", j)
@@ -220,6 +220,45 @@ def install(taps: Taps, ctx: Ctx) -> None:
     from perception_eval.manager import sensing_evaluation_manager as sem_mod
 
     taps.method(sem_mod.SensingEvaluationManager, "crop_pointcloud", mgr_crop_factory, tapname="SensingEvaluationManager.crop_pointcloud")
+
+
+def outline_of(o: Any) -> Optional[List[Tuple[float, float]]]:
+    """The object's own outline (object coordinates) when it is NOT the rectangle centred on the origin that its size
+    implies (a POLYGON shape, or a box annotated from a corner / hitch); None for the ordinary centred box."""
+    fp = getattr(o.state, "footprint", None)
+    if fp is None:
+        return None
+    pts = [(float(c[0]), float(c[1])) for c in list(fp.exterior.coords)[:-1]]
+    w, l = float(o.state.size[0]), float(o.state.size[1])
+    rect = [(l / 2, w / 2), (-l / 2, w / 2), (-l / 2, -w / 2), (l / 2, -w / 2)]
+    if len(pts) == 4 and all(abs(a[0] - b[0]) < 1e-12 and abs(a[1] - b[1]) < 1e-12 for a, b in zip(pts, rect)):
+        return None
+    return pts
+
+
+def object_verdicts(pc: np.ndarray, o: Any, scale: float) -> Tuple[np.ndarray, np.ndarray]:
+    """(inside, decided) for any object: its outline scaled ABOUT THE OBJECT'S ORIGIN, turned by its yaw and moved to its
+    position, between bottom and top."""
+    pts = outline_of(o)
+    box = O.box_of(o)
+    if pts is None:
+        return box_verdicts_fast(pc, box, scale)
+    c, s_ = math.cos(box[3]), math.sin(box[3])
+    poly = [(box[0] + c * x * scale - s_ * y * scale, box[1] + s_ * x * scale + c * y * scale) for x, y in pts]
+    inside = np.zeros(len(pc), dtype=bool)
+    decided = np.ones(len(pc), dtype=bool)
+    for k in range(len(pc)):
+        x, y = float(pc[k, 0]), float(pc[k, 1])
+        ins = G.point_in_polygon(x, y, poly)
+        if G.dist_point_to_polygon_edges(x, y, poly) < EPS:
+            decided[k] = False
+        if pc.shape[1] >= 3:
+            bz = float(pc[k, 2]) - box[2]
+            ins = ins and abs(bz) <= box[6] / 2.0
+            if abs(abs(bz) - box[6] / 2.0) < EPS:
+                decided[k] = False
+        inside[k] = ins
+    return inside, decided
 
 
 def box_verdicts_fast(pc: np.ndarray, box: Tuple, scale: float) -> Tuple[np.ndarray, np.ndarray]:
@@ -465,6 +504,42 @@ def run(ctx: Ctx) -> None:
                 fr.evaluate_frame(objs, pc, nd)
                 vis_mix = tuple(sorted({str(o.visibility) for o in objs}))
                 ctx.case(("frame", len(fr.detection_success_results) > 0, len(fr.detection_fail_results) > 0, len(fr.detection_warning_results) > 0, len(nd), vis_mix), nontrivial=n_obj > 0 and len(pc) > 0)
+        # ---- (3b) objects whose outline is not the centred rectangle (POLYGON shapes, boxes annotated from one end)
+        from perception_eval.common.shape import Shape, ShapeType
+        from shapely.geometry import Polygon as _Polygon
+
+        for idx in ctx.indices("outlines", 60 if ctx.quick else 6000):
+            r = ctx.rng("outlines", idx)
+            w, l, h = r.uniform(0.8, 2.5), r.uniform(2.0, 8.0), r.uniform(1.0, 3.0)
+            kind = r.choice(["from_rear_end", "polygon_offcentre", "polygon_l_shape"])
+            if kind == "from_rear_end":
+                pts = [(l, w / 2), (0.0, w / 2), (0.0, -w / 2), (l, -w / 2)]
+                stype = ShapeType.BOUNDING_BOX
+            elif kind == "polygon_offcentre":
+                ox, oy = r.uniform(-l, l), r.uniform(-w, w)
+                pts = [(ox + l / 2, oy + w / 2), (ox - l / 2, oy + w / 2), (ox - l / 2, oy - w / 2), (ox + l / 2, oy - w / 2)]
+                stype = ShapeType.POLYGON
+            else:
+                pts = [(l / 2, w / 2), (-l / 2, w / 2), (-l / 2, -w / 2), (0.0, -w / 2), (0.0, 0.0), (l / 2, 0.0)]
+                stype = ShapeType.POLYGON
+            o = O.obj3d(r.uniform(-40, 40), r.uniform(-40, 40), r.uniform(-1, 1), O.rand_yaw(r), w, l, h, uuid="outline")
+            o.state.shape = Shape(stype, (w, l, h), _Polygon([(x, y, 0.0) for x, y in pts] + [(pts[0][0], pts[0][1], 0.0)]))
+            scale = r.choice([1.0, 1.0, 0.7, 1.5, 2.2])
+            box = O.box_of(o)
+            n = r.choice([40, 200])
+            pc = np.zeros((n, 4))
+            c_, s_ = math.cos(box[3]), math.sin(box[3])
+            for k in range(n):
+                bx, by = r.uniform(-1.6, 1.6) * l * scale, r.uniform(-1.6, 1.6) * w * scale
+                pc[k, 0], pc[k, 1], pc[k, 2] = box[0] + c_ * bx - s_ * by, box[1] + s_ * bx + c_ * by, box[2] + r.uniform(-0.8, 0.8) * h
+            pc[:, 3] = np.arange(n) + 1.0
+            ctx.begin_case("outlines", idx, kind=kind, scale=scale)
+            with ctx.case_guard("outlines"):
+                ins = o.crop_pointcloud(pc, bbox_scale=scale, inside=True)  # judged by the tap (outline oracle)
+                outs = o.crop_pointcloud(pc, bbox_scale=scale, inside=False)
+                ctx.count("C12.outline_objects_checked")
+                ctx.check(len(ins) + len(outs) == len(pc), "C12/inside_and_outside_do_not_partition_the_cloud", dict(kind=kind, scale=scale, n=len(pc), inside=len(ins), outside=len(outs)), "DynamicObject.crop_pointcloud")
+                ctx.case(("outline", kind, scale != 1.0), nontrivial=0 < len(ins) < len(pc))
         # ---- (4) the real sensing manager on a generated dataset
         from perception_eval.config import SensingEvaluationConfig
         from perception_eval.manager import SensingEvaluationManager
